@@ -10,7 +10,7 @@ use std::sync::Mutex;
 use yui::{IntOps, Integer};
 use yui_matrix::dense::lll::{LLLRing, LLLRingOps};
 
-pub trait VIntOps<T>: IntOps<T> + LLLRingOps<T> {}
+pub trait VIntOps<T>: IntOps<T> + LLLRingOps<T> + for<'y> num_traits::Pow<&'y usize, Output = T> {}
 impl VIntOps<SymInt> for SymInt {}
 impl<'a> VIntOps<SymInt> for &'a SymInt {}
 impl VIntOps<BigInt> for BigInt {}
